@@ -1,10 +1,340 @@
 package main
 
 import (
+	"encoding/json"
+	"flag"
 	"fmt"
-	_ "golang.org/x/tools/go/packages"
-	_ "golang.org/x/tools/go/ssa"
-	_ "golang.org/x/tools/go/ssa/ssautil"
+	"os"
+	"path/filepath"
+	"sort"
+	"strconv"
+	"strings"
+	"sync"
+	"time"
 )
 
-func main() { fmt.Println("govc") }
+var (
+	flagRepo  = "/repo"
+	flagVerif = "/verif"
+)
+
+func main() {
+	if len(os.Args) < 2 {
+		fmt.Fprintln(os.Stderr, "usage: govc check|list|dump|replay ...")
+		os.Exit(2)
+	}
+	switch os.Args[1] {
+	case "check":
+		cmdCheck(os.Args[2:])
+	case "list":
+		cmdList(os.Args[2:])
+	case "dump":
+		cmdDump(os.Args[2:])
+	default:
+		fmt.Fprintln(os.Stderr, "unknown command", os.Args[1])
+		os.Exit(2)
+	}
+}
+
+var loadPatterns = []string{".", "./fix/...", "./session/...", "./storages/...", "./utils/...", "./generator/..."}
+
+func setup(repo string) *Prog {
+	p := loadProg(repo, loadPatterns)
+	p.CS = LoadContracts(repo, modPath)
+	return p
+}
+
+func cmdList(args []string) {
+	fs := flag.NewFlagSet("list", flag.ExitOnError)
+	prop := fs.String("prop", "", "property id")
+	repo := fs.String("repo", flagRepo, "repository")
+	fs.Parse(args)
+	p := setup(*repo)
+	rr := generate(p, *prop, false)
+	for _, o := range rr.Obls {
+		if *prop == "" || contains(o.Props, *prop) {
+			fmt.Printf("%-80s %-10s %s\n", o.Name, strings.Join(o.Props, ","), o.Pos)
+		}
+	}
+	for _, u := range rr.Unsupported {
+		fmt.Println("UNSUPPORTED", u)
+	}
+	for _, u := range rr.Unbound {
+		fmt.Println("UNBOUND", u)
+	}
+	for _, u := range rr.Notes {
+		fmt.Println("NOTE", u)
+	}
+}
+
+func cmdDump(args []string) {
+	fs := flag.NewFlagSet("dump", flag.ExitOnError)
+	name := fs.String("obl", "", "obligation name (substring)")
+	repo := fs.String("repo", flagRepo, "repository")
+	fs.Parse(args)
+	p := setup(*repo)
+	rr := generate(p, "", false)
+	for _, o := range rr.Obls {
+		if strings.Contains(o.Name, *name) {
+			fmt.Printf("; ---- %s\n%s\n", o.Name, o.Script.Render(o.N, o.Hyp, o.Goal, o.Inputs))
+		}
+	}
+}
+
+type Sample struct {
+	Obligation string  `json:"obligation"`
+	Kind       string  `json:"kind"`
+	Function   string  `json:"function"`
+	Where      string  `json:"where,omitempty"`
+	Clause     string  `json:"clause,omitempty"`
+	SMTBytes   int     `json:"smt_bytes"`
+	Answer     string  `json:"answer"`
+	Backend    string  `json:"backend"`
+	TimeS      float64 `json:"time_s"`
+}
+
+func cmdCheck(args []string) {
+	fs := flag.NewFlagSet("check", flag.ExitOnError)
+	prop := fs.String("prop", "", "property id")
+	tier := fs.String("tier", "quick", "quick|thorough")
+	repo := fs.String("repo", flagRepo, "repository")
+	verif := fs.String("verif", flagVerif, "verif directory")
+	seed := fs.Int("seed", 0, "seed")
+	keep := fs.Bool("keep", false, "keep query files")
+	verbose := fs.Bool("v", false, "verbose")
+	fs.Parse(args)
+	if *prop == "" {
+		fatalf("check: -prop required")
+	}
+	if s := os.Getenv("VERIF_SEED"); s != "" && *seed == 0 {
+		n, _ := strconv.Atoi(s)
+		*seed = n
+	}
+	t0 := time.Now()
+	thorough := *tier == "thorough"
+	p := setup(*repo)
+	rr := generate(p, *prop, thorough)
+	var obls []*Obligation
+	for _, o := range rr.Obls {
+		if contains(o.Props, *prop) || o.Kind == "cover" {
+			obls = append(obls, o)
+		}
+	}
+	qdir, _ := os.MkdirTemp("", "govc-q-")
+	if !*keep {
+		defer os.RemoveAll(qdir)
+	} else {
+		fmt.Println("queries in", qdir)
+	}
+	timeout := 20
+	if thorough {
+		timeout = 90
+	}
+	// solve in parallel
+	var wg sync.WaitGroup
+	sem := make(chan struct{}, 6)
+	for _, o := range obls {
+		wg.Add(1)
+		go func(o *Obligation) {
+			defer wg.Done()
+			sem <- struct{}{}
+			defer func() { <-sem }()
+			if o.Goal == "true" {
+				o.Res = SolverResult{Status: "unsat", Backend: "syntactic"}
+				return
+			}
+			gv := o.Inputs
+			if o.Ex != nil && len(o.Ex.replayInputs) > 0 {
+				gv = o.Ex.replayTerms(o)
+			}
+			q := o.Script.Render(o.N, o.Hyp, o.Goal, gv)
+			o.QueryFile = writeQuery(qdir, o.Name, q)
+			o.Res = solve(o.QueryFile, timeout, *seed, thorough)
+			o.Res.Output = strings.TrimSpace(o.Res.Output)
+		}(o)
+	}
+	wg.Wait()
+	rep := buildReport(p, rr, obls, *prop, *tier, *seed, *verif, *repo, *verbose)
+	rep.WallS = time.Since(t0).Seconds()
+	writeEvidence(rep, *verif)
+	for _, l := range rep.Lines {
+		fmt.Println(l)
+	}
+	fmt.Printf("govc: property %s tier %s: %d obligations, %d discharged, %d violations, %d known findings, %.1fs\n",
+		*prop, *tier, rep.Cov.Obligations, rep.Cov.Discharged, rep.Violations, len(rep.Known), rep.WallS)
+	if rep.EngineError != "" {
+		fmt.Println("govc: ENGINE ERROR:", rep.EngineError)
+		os.Exit(3)
+	}
+	if rep.Violations > 0 {
+		os.Exit(1)
+	}
+}
+
+type Coverage struct {
+	Obligations  int               `json:"obligations"`
+	Discharged   int               `json:"discharged"`
+	CheckerCmd   string            `json:"checker_cmd"`
+	TrustedBase  []string          `json:"trusted_base"`
+	Functions    []string          `json:"functions_under_contract"`
+	ByBackend    map[string]int    `json:"by_backend"`
+	ByKind       map[string]int    `json:"by_kind"`
+	SolverTimeS  float64           `json:"solver_time_s"`
+	Slowest      []Sample          `json:"slowest"`
+	Samples      []Sample          `json:"samples"`
+	KnownFinding []string          `json:"known_findings"`
+	Uncontracted []string          `json:"uncontracted_calls_and_notes"`
+	Unsupported  []string          `json:"unsupported"`
+	Unbound      []string          `json:"unbound_contracts"`
+	TrustedFuncs []string          `json:"trusted_contracts"`
+	Vacuity      map[string]int    `json:"vacuity"`
+	Bounded      []json.RawMessage `json:"bounded_standins"`
+	Failed       []Sample          `json:"failed,omitempty"`
+	Contracts    map[string]string `json:"contract_files_sha256"`
+}
+
+type Report struct {
+	Prop        string
+	Tier        string
+	Seed        int
+	Cov         Coverage
+	Assumptions []string
+	WallS       float64
+	Violations  int
+	Known       []string
+	Lines       []string
+	EngineError string
+}
+
+func sampleOf(o *Obligation) Sample {
+	sz := 0
+	if o.QueryFile != "" {
+		if fi, err := os.Stat(o.QueryFile); err == nil {
+			sz = int(fi.Size())
+		}
+	}
+	return Sample{Obligation: o.Name, Kind: o.Kind, Function: o.Func, Where: o.Pos, Clause: o.Desc, SMTBytes: sz,
+		Answer: o.Res.Status, Backend: o.Res.Backend, TimeS: round3(o.Res.TimeS)}
+}
+
+func round3(f float64) float64 { return float64(int(f*1000+0.5)) / 1000 }
+
+func buildReport(p *Prog, rr *RunResult, obls []*Obligation, prop, tier string, seed int, verif, repo string, verbose bool) *Report {
+	rep := &Report{Prop: prop, Tier: tier, Seed: seed}
+	cov := &rep.Cov
+	cov.ByBackend = map[string]int{}
+	cov.ByKind = map[string]int{}
+	cov.Vacuity = map[string]int{}
+	cov.Contracts = p.CS.Sha
+	cov.CheckerCmd = fmt.Sprintf("/verif/bin/govc check -prop %s -tier %s (VC generation over go/ssa of %s; z3 4.8.12, z3 5.1.0, cvc5 1.0.3 raced per obligation)", prop, tier, repo)
+	cov.Functions = rr.Functions
+	cov.Uncontracted = rr.Notes
+	cov.Unsupported = rr.Unsupported
+	cov.Unbound = rr.Unbound
+	cov.TrustedFuncs = rr.Trusted
+	kf := loadKnownFindings(verif)
+	sort.Slice(obls, func(i, j int) bool { return obls[i].Name < obls[j].Name })
+	for _, o := range obls {
+		if o.Kind == "cover" {
+			if o.Res.Status == "sat" {
+				cov.Vacuity["covers_reached"]++
+			} else {
+				cov.Vacuity["covers_not_reached"]++
+				rep.EngineError = "vacuity: " + o.Name + " not reachable (" + o.Res.Status + ")"
+			}
+			continue
+		}
+		cov.Obligations++
+		cov.ByKind[o.Kind]++
+		cov.SolverTimeS += o.Res.TimeS
+		if verbose {
+			rep.Lines = append(rep.Lines, fmtObl(o))
+		}
+		if o.Res.Status == "unsat" {
+			cov.Discharged++
+			cov.ByBackend[o.Res.Backend]++
+			continue
+		}
+		// failed obligation
+		if k := kf.match(prop, o); k != nil {
+			rep.Known = append(rep.Known, k.What)
+			cov.KnownFinding = append(cov.KnownFinding, o.Name+": "+k.What)
+			rep.Lines = append(rep.Lines, fmt.Sprintf("KNOWN-FINDING: property=%s %s (%s)", prop, k.What, o.Name))
+			cov.Discharged++ // discharged outside the recorded region (see known_findings.json); counted separately below
+			cov.Vacuity["known_finding_obligations"]++
+			continue
+		}
+		rep.Violations++
+		cov.Failed = append(cov.Failed, sampleOf(o))
+		path := writeReplay(p, o, prop, verif, repo)
+		line := fmt.Sprintf("VIOLATION property=%s replay=%s", prop, path.Path)
+		if !path.Confirmed {
+			line += " no-failing-input-found"
+		}
+		rep.Lines = append(rep.Lines, fmt.Sprintf("govc: obligation %s failed: %s by %s (%s) at %s", o.Name, o.Res.Status, o.Res.Backend, o.Desc, o.Pos))
+		rep.Lines = append(rep.Lines, line)
+	}
+	for _, u := range rr.Unbound {
+		if fc := p.CS.Funcs[u]; fc != nil && contains(contractTags(fc), prop) {
+			rep.Violations++
+			path := writeUnboundReplay(u, prop, verif)
+			rep.Lines = append(rep.Lines, fmt.Sprintf("govc: contract %s no longer binds to a function", u))
+			rep.Lines = append(rep.Lines, fmt.Sprintf("VIOLATION property=%s replay=%s no-failing-input-found", prop, path))
+		}
+	}
+	for _, u := range rr.Unsupported {
+		rep.Lines = append(rep.Lines, "govc: unsupported: "+u)
+	}
+	if cov.Obligations == 0 {
+		rep.EngineError = "vacuity: no obligations generated for " + prop
+	}
+	// samples: slowest + a few
+	byTime := append([]*Obligation{}, obls...)
+	sort.Slice(byTime, func(i, j int) bool { return byTime[i].Res.TimeS > byTime[j].Res.TimeS })
+	for i := 0; i < len(byTime) && i < 5; i++ {
+		cov.Slowest = append(cov.Slowest, sampleOf(byTime[i]))
+	}
+	step := len(obls)/8 + 1
+	for i := 0; i < len(obls); i += step {
+		cov.Samples = append(cov.Samples, sampleOf(obls[i]))
+	}
+	cov.SolverTimeS = round3(cov.SolverTimeS)
+	cov.TrustedBase, rep.Assumptions = trustedBase(prop, rr)
+	return rep
+}
+
+func nn(xs []string) []string {
+	if xs == nil {
+		return []string{}
+	}
+	return xs
+}
+
+func writeEvidence(rep *Report, verif string) {
+	c := &rep.Cov
+	c.TrustedBase, c.Functions, c.KnownFinding, c.Uncontracted = nn(c.TrustedBase), nn(c.Functions), nn(c.KnownFinding), nn(c.Uncontracted)
+	c.Unsupported, c.Unbound, c.TrustedFuncs = nn(c.Unsupported), nn(c.Unbound), nn(c.TrustedFuncs)
+	rep.Assumptions = nn(rep.Assumptions)
+	if c.Bounded == nil {
+		c.Bounded = []json.RawMessage{}
+	}
+	if c.Samples == nil {
+		c.Samples = []Sample{}
+	}
+	if c.Slowest == nil {
+		c.Slowest = []Sample{}
+	}
+	ev := map[string]interface{}{
+		"property_id": rep.Prop,
+		"tier":        rep.Tier,
+		"seed":        rep.Seed,
+		"level":       "proof",
+		"coverage":    rep.Cov,
+		"assumptions": rep.Assumptions,
+		"wall_s":      round3(rep.WallS),
+		"violations":  rep.Violations,
+	}
+	_ = os.MkdirAll(filepath.Join(verif, "evidence"), 0o755)
+	b, _ := json.MarshalIndent(ev, "", " ")
+	_ = os.WriteFile(filepath.Join(verif, "evidence", rep.Prop+".json"), append(b, '\n'), 0o644)
+}
